@@ -736,7 +736,10 @@ class SqlalchemyRender:
 
             return sql, params
 
-        except (SQLAlchemyError, NotImplementedError) as e:
+        except Exception as e:
+            if not isinstance(e, (SQLAlchemyError, NotImplementedError)):
+                # a tree shape the mapping does not handle (unknown type, operator, argument kind ...)
+                e = NotImplementedError(f'Unable to render: {e.__class__.__name__}: {e}')
             if not with_failback:
                 raise e
 
